@@ -1921,9 +1921,6 @@ func (x *Exec) applyGhostSetIn(cfg *Config, env *SpecEnv, gs *Clause, evalSt *St
 // frameChecks proves that nothing outside the modifies clause changed.
 func (x *Exec) frameChecks(cfg *Config, env *SpecEnv) {
 	noframe := x.c.Options["noframe"] == "true"
-	if noframe && !ghostExplicit(x.c) {
-		return
-	}
 	oenv := env.withState(cfg.old)
 	targets := x.resolveModifies(oenv, x.c)
 	byArr := map[string][]modTarget{}
